@@ -176,4 +176,86 @@ theorem plainOp_error (e : Err) (op : Op) :
   | discard => simp [plainOp, delivered, Complete, ResultErr]
   | size => simp [plainOp, delivered, Complete, ResultErr]
 
+/-! ## A validated `ReaderAt` buffer after `WithErrorHandler` -/
+
+theorem plainOp_readerAt_good (D suf : Bytes) (op : Op) (ht : (∃ off n, op = .readAt off n) → suf = []) :
+    delivered (plainOp (.readerAt D suf) op) <+: window D op ∧
+    (Complete (plainOp (.readerAt D suf) op) → delivered (plainOp (.readerAt D suf) op) = window D op) := by
+  cases op with
+  | slice max =>
+    simp only [plainOp, baseSlice]
+    by_cases h : D.length > max
+    · rw [if_pos h]; simp [delivered, Complete]
+    · rw [if_neg h]; simp [delivered, window]
+  | writer fa =>
+    simp only [plainOp]
+    by_cases h0 : D = []
+    · rw [if_pos h0]; simp [delivered, window, h0]
+    · rw [if_neg h0]
+      by_cases h : fa = some 0
+      · rw [if_pos h]; simp [delivered, Complete]
+      · rw [if_neg h]; simp [delivered, window]
+  | readAt off n =>
+    have := ht ⟨off, n, rfl⟩
+    subst this
+    simp only [plainOp, baseReadAt, List.append_nil]
+    by_cases h : off ≥ D.length
+    · rw [if_pos h]; simp [delivered, window, List.drop_eq_nil_of_le h]
+    · rw [if_neg h]; simp [delivered, window]
+  | reader sizes =>
+    obtain ⟨r1, r2, _⟩ := rawRun_spec sizes (openReader (.readerAt D suf) 0)
+    rw [openReader_rest] at r1 r2
+    simp only [content, List.drop_zero] at r1 r2
+    simp only [plainOp, delivered, window, Complete]
+    exact ⟨r1, fun ⟨x, hx⟩ => r2 x hx⟩
+  | chunkReader off m k =>
+    have ho := openChunks_flatten (.readerAt D suf) off m
+    obtain ⟨c1, _, c3, _⟩ := consume_spec (openChunks (.readerAt D suf) off m).2
+      ((openChunks (.readerAt D suf) off m).1.map .chunk) k
+    simp only [evBytes_chunks, ho, content] at c1 c3
+    simp only [plainOp, delivered, window, Complete]
+    exact ⟨c1, fun ⟨x, hx⟩ => (c3 x hx).2.1⟩
+  | discard => simp [plainOp, delivered, Complete]
+  | size => simp [plainOp, delivered, Complete]
+
+theorem plainOp_readerAt_err (D suf : Bytes) (op : Op) (e : Err) (h : ResultErr (plainOp (.readerAt D suf) op) e) :
+    (e = .writer ∨ (∃ a b, e = .badOffset a b) ∨ ∃ a b, e = .tooLarge a b) := by
+  cases op with
+  | slice max =>
+    simp only [plainOp, baseSlice] at h
+    by_cases hh : D.length > max
+    · rw [if_pos hh] at h; simp only [ResultErr] at h; exact Or.inr (Or.inr ⟨_, _, h⟩)
+    · rw [if_neg hh] at h; simp [ResultErr] at h
+  | writer fa =>
+    simp only [plainOp] at h
+    by_cases h0 : D = []
+    · rw [if_pos h0] at h; simp [ResultErr] at h
+    · rw [if_neg h0] at h
+      by_cases hh : fa = some 0
+      · rw [if_pos hh] at h; simp only [ResultErr] at h; exact Or.inl h
+      · rw [if_neg hh] at h; simp [ResultErr] at h
+  | readAt off n =>
+    simp only [plainOp, baseReadAt] at h
+    by_cases hh : off ≥ (D ++ suf).length
+    · rw [if_pos hh] at h; simp [ResultErr] at h
+    · rw [if_neg hh] at h; simp [ResultErr] at h
+  | reader sizes =>
+    obtain ⟨_, _, r3⟩ := rawRun_spec sizes (openReader (.readerAt D suf) 0)
+    simp only [plainOp, ResultErr] at h
+    obtain ⟨x, hx⟩ := h
+    have := r3 x e hx
+    simp [openReader, RSrc.term] at this
+  | chunkReader off m k =>
+    obtain ⟨_, _, _, c4⟩ := consume_spec (openChunks (.readerAt D suf) off m).2
+      ((openChunks (.readerAt D suf) off m).1.map .chunk) k
+    simp only [plainOp, ResultErr] at h
+    obtain ⟨x, hx⟩ := h
+    have := (c4 x e hx).1
+    simp only [openChunks] at this
+    by_cases hh : off > D.length
+    · rw [if_pos hh] at this; simp at this; exact Or.inr (Or.inl ⟨_, _, this.symm⟩)
+    · rw [if_neg hh] at this; simp at this
+  | discard => simp [plainOp, ResultErr] at h
+  | size => simp [plainOp, ResultErr] at h
+
 end BB.ErrorHandling
